@@ -69,7 +69,9 @@ create type default::Post {
   create required link author -> default::User;
   create property title -> str;
   create multi property ptags -> str;
+  create multi link readers -> default::User;
   create access policy p allow select using ((.title ?? '') != 'x');
+  create access policy r allow select using (exists .readers);
   create access policy q allow insert, update, delete;
 };
 create type default::SpecialPost extending default::Post {
